@@ -30,6 +30,8 @@ pub struct ClientSim {
     pub answered: Vec<Vec<u8>>,
     pub max_outstanding: usize,
     pub asked: HashMap<Vec<u8>, usize>,
+    /// replies that reached the real handler while the query was still pending: (key, nth query, reply index)
+    pub delivered: Vec<(Vec<u8>, usize, usize)>,
     steps: HashMap<String, usize>,
 }
 
@@ -47,7 +49,7 @@ impl ClientSim {
         let evm = evmlib::Network::new_custom("http://127.0.0.1:9/", "0x5FbDB2315678afecb367f032d93F642f64180aa3", "0x8464135c8F25Da09e49BC8782676a84730C318bC");
         let client = Client::verif_new(sim.nodes[ci].network.clone(), evm);
         let peers = (0..8).map(|_| PeerId::from(gen::ed_keypair(rng).public())).collect();
-        ClientSim { sim, ci, client, peers, answered: vec![], max_outstanding: 0, asked: HashMap::new(), steps: HashMap::new() }
+        ClientSim { sim, ci, client, peers, answered: vec![], max_outstanding: 0, asked: HashMap::new(), delivered: vec![], steps: HashMap::new() }
     }
 
     fn pump(&mut self) {
@@ -100,11 +102,12 @@ impl ClientSim {
             };
             self.answered.push(key.to_vec());
             let replies = answer(&key, nth);
-            for r in replies {
+            for (ri, r) in replies.into_iter().enumerate() {
                 let still = self.sim.nodes[self.ci].drv.verif_pending_get_record().iter().any(|(id, _, _, _)| *id == qid);
                 if !still {
                     break;
                 }
+                self.delivered.push((key.to_vec(), nth, ri));
                 let c = self.steps.entry(qname.clone()).or_default();
                 *c += 1;
                 let step = kad::ProgressStep { count: NonZeroUsize::new(*c).expect("nz"), last: !matches!(r, Reply::Found(..)) };
